@@ -580,3 +580,476 @@ theorem honest_run (H : List UInt8 → List UInt8) (bsS bsR size : Nat) (hash : 
       (by rw [show 0 + 1 + (data.length - 1) = data.length by omega]; exact hmul) (by omega)
 
 end Qx.C19
+namespace Qx.C19
+
+/-! ### after a lost / reordered / mislabelled block the receiver can never complete -/
+
+/-- a request of the sending job whose block index lies beyond `e` -/
+def Late (e : Nat) (p : Stanza) : Prop :=
+  p.sender = 0 ∧ p.sid = 0 ∧
+    match p.kind with
+    | .data seq _ => ∃ n, seq = UInt16.ofNat n ∧ e < n ∧ n < 65536
+    | _ => True
+
+/-- the sending job has read `n > e` whole blocks -/
+def SD (data : List UInt8) (bs e : Nat) (s : Send) : Prop :=
+  s.blockSize = bs ∧ ∃ n, s.seq = UInt16.ofNat n ∧ s.rest = data.drop (n * bs) ∧ e < n
+
+/-- the receiver waits for block `e`, holds fewer bytes than announced and has not reported success -/
+def RD (len e : Nat) (r : Recv) : Prop :=
+  r.expected = UInt16.ofNat e ∧ r.size = len ∧ r.acc.length < len ∧ ¬ r.success
+
+theorem sender_SD (data : List UInt8) (bs e : Nat) (hlen : data.length ≤ 65536 * bs) (s : Send) (rep : Reply)
+    (h : SD data bs e s) : SD data bs e (sender s rep).1 ∧ ∀ p, (sender s rep).2 = some p → Late e p := by
+  obtain ⟨hb, n, hn, hr, he⟩ := h
+  unfold sender
+  split
+  · exact ⟨⟨hb, n, hn, hr, he⟩, by simp⟩
+  · split
+    · exact ⟨⟨hb, n, hn, hr, he⟩, by simp⟩
+    · split
+      · exact ⟨⟨hb, n, hn, hr, he⟩, by simp⟩
+      · split
+        · split
+          · rename_i hne
+            refine ⟨⟨hb, n + 1, ?_, ?_, by omega⟩, ?_⟩
+            · show s.seq + 1 = UInt16.ofNat (n + 1)
+              rw [ofNat_succ, hn]
+            · simp only [hr, hb, List.drop_drop, Nat.succ_mul]
+            · intro p hp
+              simp only [Option.some.injEq] at hp
+              subst hp
+              refine ⟨rfl, rfl, n, hn, he, ?_⟩
+              rw [hr, hb] at hne
+              exact block_index_lt data bs n hlen hne
+          · refine ⟨⟨by simpa using hb, n, by simpa using hn, by simpa using hr, he⟩, ?_⟩
+            intro p hp; simp only [Option.some.injEq] at hp; subst hp; exact ⟨rfl, rfl, trivial⟩
+        · refine ⟨⟨by simpa using hb, n, by simpa using hn, by simpa using hr, he⟩, ?_⟩
+          intro p hp; simp only [Option.some.injEq] at hp; subst hp; exact ⟨rfl, rfl, trivial⟩
+
+theorem recv_RD (H : List UInt8 → List UInt8) (len e : Nat) (r : Recv) (p : Stanza)
+    (h : RD len e r) (hp : Late e p ∨ Foreign p) : RD len e (recv H r p).1 := by
+  by_cases hf : Foreign p
+  · rw [recv_foreign H r p hf]; exact h
+  have hg : Late e p := hp.resolve_right hf
+  obtain ⟨h1, h2, h3, h4⟩ := h
+  obtain ⟨g1, g2, g3⟩ := hg
+  unfold recv
+  split
+  · exact ⟨h1, h2, h3, h4⟩
+  · split
+    · refine ⟨by simpa using h1, by simpa using h2, by simpa using h3, ?_⟩
+      apply Recv.checkData_fails_not_success H r _ h4
+      simp [Recv.checkFails]
+      left
+      omega
+    · rename_i seq pl hk
+      rw [hk] at g3
+      obtain ⟨n, hn, hlt, hn'⟩ := g3
+      split
+      · exact ⟨h1, h2, h3, h4⟩
+      · split
+        · exact ⟨h1, h2, h3, h4⟩
+        · rename_i hseq
+          simp only [ne_eq, Decidable.not_not] at hseq
+          have := ofNat_inj_of_lt n e hn' (by omega) (by rw [← hn, hseq, h1])
+          omega
+    · split
+      · exact ⟨h1, h2, h3, h4⟩
+      · exact ⟨h1, h2, h3, by simp [Recv.success]⟩
+
+theorem late_close (e : Nat) : Late e { id := 0, sender := 0, sid := 0, kind := .close } := ⟨rfl, rfl, trivial⟩
+
+abbrev Doomed (data : List UInt8) (bs e : Nat) : St → Prop := Tri (SD data bs e) (RD data.length e) (Late e)
+
+theorem doomed_never_success (H : List UInt8 → List UInt8) (data : List UInt8) (bs e : Nat)
+    (hlen : data.length ≤ 65536 * bs) (st : St) (h : Doomed data bs e st)
+    (cont : List Op) (hb : ∀ op ∈ cont, op.benign) : ¬ (run H st cont).1.r.success :=
+  (tri_run H (recv_RD H data.length e) (sender_SD data bs e hlen) (late_close e) cont st hb h).r.2.2.2
+
+/-! ### after the stream was cut short the job stays finished with an error -/
+
+def NotOpen (p : Stanza) : Prop := p.sender = 0 ∧ p.sid = 0 ∧ ∀ bs, p.kind ≠ .open bs
+
+def RF (r : Recv) : Prop := r.state = .finished ∧ ¬ r.success
+
+theorem recv_RF (H : List UInt8 → List UInt8) (r : Recv) (p : Stanza)
+    (h : RF r) (hp : NotOpen p ∨ Foreign p) : RF (recv H r p).1 := by
+  by_cases hf : Foreign p
+  · rw [recv_foreign H r p hf]; exact h
+  have hg : NotOpen p := hp.resolve_right hf
+  obtain ⟨h1, h2⟩ := h
+  unfold recv
+  split
+  · exact ⟨h1, h2⟩
+  · split
+    · have : r.checkData H = r := by
+        unfold Recv.checkData Recv.terminate; simp [h1]
+      rw [this]; exact ⟨h1, h2⟩
+    · split
+      · exact ⟨h1, h2⟩
+      · rename_i hst; simp [h1] at hst
+    · rename_i bs hk
+      exact absurd hk (hg.2.2 bs)
+
+theorem sender_notOpen (s : Send) (rep : Reply) : True ∧ ∀ p, (sender s rep).2 = some p → NotOpen p := by
+  refine ⟨trivial, ?_⟩
+  unfold sender
+  intro p
+  split
+  · simp
+  · split
+    · simp
+    · split
+      · simp
+      · split
+        · split <;> (intro hp; simp only [Option.some.injEq] at hp; subst hp; exact ⟨rfl, rfl, by simp⟩)
+        · intro hp; simp only [Option.some.injEq] at hp; subst hp; exact ⟨rfl, rfl, by simp⟩
+
+theorem closed_never_success (H : List UInt8 → List UInt8) (st : St)
+    (h : Tri (fun _ => True) RF NotOpen st) (cont : List Op) (hb : ∀ op ∈ cont, op.benign) :
+    ¬ (run H st cont).1.r.success :=
+  (tri_run H (recv_RF H) (fun s rep _ => sender_notOpen s rep) ⟨rfl, rfl, by simp⟩ cont st hb h).r.2
+
+end Qx.C19
+namespace Qx.C19
+
+/-! ### the state reached by each single fault on data block `j` -/
+
+section faults
+set_option linter.unusedSimpArgs false
+variable (H : List UInt8 → List UInt8) (bsS bsR : Nat) (hash : Option (List UInt8)) (data : List UInt8) (j : Nat)
+
+theorem atBlock_acc_length (size : Nat) (hblk : j * bsS < data.length) :
+    (atBlock bsS bsR size hash data j).r.acc.length = j * bsS := by
+  simp [atBlock, Recv.acc]; omega
+
+/-- with the pending block taken out, the receiver waits for block `j` and the sender is already past it -/
+theorem atBlock_cleared_doomed (hblk : j * bsS < data.length) :
+    Doomed data bsS j { atBlock bsS bsR data.length hash data j with pending := none } := by
+  refine ⟨⟨rfl, j + 1, rfl, rfl, by omega⟩, ⟨rfl, rfl, ?_, by simp [atBlock, Recv.success]⟩, by simp⟩
+  show (atBlock bsS bsR data.length hash data j).r.acc.length < data.length
+  rw [atBlock_acc_length bsS bsR hash data j _ hblk]; exact hblk
+
+theorem tri_of_eq {SP : Send → Prop} {RP : Recv → Prop} {G : Stanza → Prop} {a b : St} (h : Tri SP RP G a) (e : b = a) :
+    Tri SP RP G b := e ▸ h
+
+theorem drop_doomed (hlen : data.length ≤ 65536 * bsS) (hblk : j * bsS < data.length) :
+    Doomed data bsS j (step H (atBlock bsS bsR data.length hash data j) .drop).1 := by
+  have h := tri_feed H (recv_RD H data.length j) (sender_SD data bsS j hlen) (late_close j) _
+    (ack { id := j + 2, sender := 0, sid := 0, kind := .data (UInt16.ofNat j) ((data.drop (j * bsS)).take bsS) })
+    (atBlock_cleared_doomed bsS bsR hash data j hblk)
+  exact tri_of_eq h (by simp [step, atBlock])
+
+theorem wrongSid_doomed (hlen : data.length ≤ 65536 * bsS) (hblk : j * bsS < data.length) :
+    Doomed data bsS j (step H (atBlock bsS bsR data.length hash data j) .wrongSid).1 := by
+  have h := tri_deliverStanza H (recv_RD H data.length j) (sender_SD data bsS j hlen) (late_close j) _
+    { id := j + 2, sender := 0, sid := 1, kind := .data (UInt16.ofNat j) ((data.drop (j * bsS)).take bsS) }
+    (atBlock_cleared_doomed bsS bsR hash data j hblk) (Or.inr (Or.inr (by simp)))
+  exact tri_of_eq h (by simp [step, atBlock])
+
+theorem wrongSender_doomed (hlen : data.length ≤ 65536 * bsS) (hblk : j * bsS < data.length) :
+    Doomed data bsS j (step H (atBlock bsS bsR data.length hash data j) .wrongSender).1 := by
+  have h := tri_deliverStanza H (recv_RD H data.length j) (sender_SD data bsS j hlen) (late_close j) _
+    { id := j + 2, sender := 1, sid := 0, kind := .data (UInt16.ofNat j) ((data.drop (j * bsS)).take bsS) }
+    (atBlock_cleared_doomed bsS bsR hash data j hblk) (Or.inr (Or.inl (by simp)))
+  exact tri_of_eq h (by simp [step, atBlock])
+
+
+theorem earlyClose_closed (hblk : j * bsS < data.length) :
+    Tri (fun _ => True) RF NotOpen (step H (atBlock bsS bsR data.length hash data j) .earlyClose).1 := by
+  have hcf : ∀ r : Recv, r.size = data.length → r.accRev = (data.take (j * bsS)).reverse → r.checkFails H = true := by
+    intro r e1 e3
+    simp [Recv.checkFails, Recv.acc, e1, e3]
+    left
+    refine ⟨?_, by omega⟩
+    intro hd; simp [hd] at hblk
+  refine ⟨trivial, ?_, ?_⟩
+  · simp [step, deliverStanza, atBlock, toR, feed, recv, Recv.checkData, hcf, Recv.terminate, RF, Recv.success]
+  · intro q hq
+    simp [step, deliverStanza, atBlock, toR, feed, recv, sender] at hq
+    subst hq
+    exact ⟨rfl, rfl, by simp⟩
+
+theorem swap_doomed (hb : 0 < bsS) (hlen : data.length ≤ 65536 * bsS) (hblk : j * bsS < data.length) :
+    ∃ e, Doomed data bsS e (step H (atBlock bsS bsR data.length hash data j) .swap).1 := by
+  by_cases hmore : (j + 1) * bsS < data.length
+  · -- the next block exists: it is refused, the held block is then accepted, the sender gives up
+    have h2 := take_drop_ne_nil data ((j + 1) * bsS) bsS hmore hb
+    refine ⟨j + 1, ?_, ?_, ?_⟩
+    · refine ⟨?_, j + 2, ?_, ?_, by omega⟩
+      · simp [step, deliverStanza, atBlock, toR, feed, recv, sender, ack, h2]
+      · simp [step, deliverStanza, atBlock, toR, feed, recv, sender, ack, h2]
+        rw [UInt16.add_assoc]; rfl
+      · simp [step, deliverStanza, atBlock, toR, feed, recv, sender, ack, h2]
+        rw [show j + 2 = j + 1 + 1 by rfl, Nat.succ_mul (j + 1) bsS]
+    · refine ⟨?_, ?_, ?_, ?_⟩
+      · simp [step, deliverStanza, atBlock, toR, feed, recv, sender, ack, h2]
+      · simp [step, deliverStanza, atBlock, toR, feed, recv, sender, ack, h2]
+      · simp [step, deliverStanza, atBlock, toR, feed, recv, sender, ack, h2, Recv.acc]
+        have key : ∀ x len bs : Nat, x + bs < len → min x len + min bs (len - x) < len := by
+          intro x len bs h; omega
+        exact key (j * bsS) data.length bsS (by rw [← Nat.succ_mul]; exact hmore)
+      · simp [step, deliverStanza, atBlock, toR, feed, recv, sender, ack, h2, Recv.success]
+    · intro q hq
+      simp [step, deliverStanza, atBlock, toR, feed, recv, sender, ack, h2] at hq
+      subst hq
+      exact ⟨rfl, rfl, trivial⟩
+  · -- the held block was the last one: the sender closes, the receiver's check fails, the held block comes too late
+    have h2 : List.drop ((j + 1) * bsS) data = [] := List.drop_of_length_le (by omega)
+    have hcf : ∀ r : Recv, r.size = data.length → r.accRev = (data.take (j * bsS)).reverse → r.checkFails H = true := by
+      intro r e1 e3
+      simp [Recv.checkFails, Recv.acc, e1, e3]
+      left
+      refine ⟨?_, by omega⟩
+      intro hd; simp [hd] at hblk
+    refine ⟨j, ?_, ?_, ?_⟩
+    · refine ⟨?_, j + 1, ?_, ?_, by omega⟩
+      · simp [step, deliverStanza, atBlock, toR, feed, recv, sender, ack, h2, Send.terminate]
+      · simp [step, deliverStanza, atBlock, toR, feed, recv, sender, ack, h2, Send.terminate]
+      · simp [step, deliverStanza, atBlock, toR, feed, recv, sender, ack, h2, Send.terminate]
+    · refine ⟨?_, ?_, ?_, ?_⟩
+      · simp [step, deliverStanza, atBlock, toR, feed, recv, sender, ack, h2, Send.terminate, Recv.checkData, hcf, Recv.terminate]
+      · simp [step, deliverStanza, atBlock, toR, feed, recv, sender, ack, h2, Send.terminate, Recv.checkData, hcf, Recv.terminate]
+      · simp [step, deliverStanza, atBlock, toR, feed, recv, sender, ack, h2, Send.terminate, Recv.checkData, hcf, Recv.terminate, Recv.acc]
+        omega
+      · simp [step, deliverStanza, atBlock, toR, feed, recv, sender, ack, h2, Send.terminate, Recv.checkData, hcf, Recv.terminate, Recv.success]
+    · intro q hq
+      simp [step, deliverStanza, atBlock, toR, feed, recv, sender, ack, h2, Send.terminate, Recv.checkData, hcf, Recv.terminate] at hq
+
+end faults
+end Qx.C19
+namespace Qx.C19
+
+theorem bitMask_ne_zero (k : Nat) : bitMask k ≠ 0 := by
+  unfold bitMask; split <;> decide
+
+@[simp] theorem length_flipBit (l : List UInt8) (bit : Nat) : (flipBit l bit).length = l.length := by
+  simp [flipBit]
+
+theorem flipBit_ne (l : List UInt8) (bit : Nat) (h : l ≠ []) : flipBit l bit ≠ l := by
+  have hpos : 0 < l.length := List.length_pos_iff.mpr h
+  have hi : bit % (8 * l.length) / 8 < l.length := by
+    have : bit % (8 * l.length) < 8 * l.length := Nat.mod_lt _ (by omega)
+    omega
+  intro he
+  unfold flipBit at he
+  have h1 := congrArg (fun x => x[bit % (8 * l.length) / 8]?) he
+  simp only [List.getElem?_set_self hi, List.getElem?_eq_getElem hi, Option.some.injEq] at h1
+  have h2 : l.getD (bit % (8 * l.length) / 8) 0 = l[bit % (8 * l.length) / 8] := by
+    simp [List.getD, List.getElem?_eq_getElem hi]
+  rw [h2] at h1
+  have h3 : l[bit % (8 * l.length) / 8] ^^^ bitMask (bit % (8 * l.length)) = l[bit % (8 * l.length) / 8] ^^^ 0 := by
+    rw [h1]; simp
+  exact bitMask_ne_zero _ ((UInt8.xor_right_inj _).1 h3)
+
+
+theorem recv_acc_prefix (H : List UInt8 → List UInt8) (X : List UInt8) (r : Recv) (p : Stanza)
+    (h : ∃ t, r.acc = X ++ t) : ∃ t, (recv H r p).1.acc = X ++ t := by
+  unfold recv
+  split
+  · exact h
+  · split
+    · simpa using h
+    · split
+      · exact h
+      · split
+        · exact h
+        · rename_i seq pl _ _ _
+          obtain ⟨t, ht⟩ := h
+          exact ⟨t ++ pl, by rw [Recv.acc_write, ht, List.append_assoc]⟩
+    · split
+      · exact h
+      · exact h
+
+theorem run_acc_prefix (H : List UInt8 → List UInt8) (X : List UInt8) (ops : List Op) (st : St)
+    (h : ∃ t, st.r.acc = X ++ t) : ∃ t, (run H st ops).1.r.acc = X ++ t :=
+  run_r_inv H (fun r => ∃ t, r.acc = X ++ t) (recv_acc_prefix H X) ops st h
+
+theorem altered_prefix_ne (data : List UInt8) (n bs : Nat) (pl' t : List UInt8)
+    (hlen : pl'.length = ((data.drop n).take bs).length) (hne : pl' ≠ (data.drop n).take bs) :
+    data.take n ++ pl' ++ t ≠ data := by
+  intro he
+  have h1 : data.take n ++ (pl' ++ t) = data.take n ++ data.drop n := by
+    rw [← List.append_assoc, he, List.take_append_drop]
+  have h2 : pl' ++ t = data.drop n := List.append_cancel_left h1
+  have h3 : pl' = (data.drop n).take pl'.length := by
+    rw [← h2]; simp
+  apply hne
+  rw [h3, List.take_eq_take_iff, hlen, List.length_take]
+  omega
+
+section flip
+set_option linter.unusedSimpArgs false
+variable (H : List UInt8 → List UInt8) (bsS bsR size : Nat) (hash : Option (List UInt8)) (data : List UInt8) (j : Nat)
+
+theorem flip_acc (bit : Nat) :
+    (step H (atBlock bsS bsR size hash data j) (.flip bit)).1.r.acc =
+      data.take (j * bsS) ++ flipBit ((data.drop (j * bsS)).take bsS) bit := by
+  simp [step, deliverStanza, atBlock, toR, feed, recv, sender, flipStanza, Recv.acc]
+
+theorem dup_eq_deliver :
+    (step H (atBlock bsS bsR size hash data j) .dup).1 = (step H (atBlock bsS bsR size hash data j) .deliver).1 ∧
+    (step H (atBlock bsS bsR size hash data j) .dup).2 =
+      [{ id := j + 2, to := 0, err := none }, { id := j + 2, to := 0, err := some .unexpectedRequest }] ∧
+    (step H (atBlock bsS bsR size hash data j) .dup).1.r.acc = data.take ((j + 1) * bsS) := by
+  have h3 : data.take (j * bsS) ++ (data.drop (j * bsS)).take bsS = data.take ((j + 1) * bsS) := take_succ_block data j bsS
+  refine ⟨?_, ?_, ?_⟩
+  · by_cases h2 : List.take bsS (List.drop ((j + 1) * bsS) data) = []
+    · simp [step, deliverStanza, atBlock, toR, feed, recv, sender, h2, Send.terminate]
+    · simp [step, deliverStanza, atBlock, toR, feed, recv, sender, h2]
+  · simp [step, atBlock, toR, recv]
+  · simp [step, atBlock, toR, feed, recv, Recv.acc, h3]
+
+end flip
+end Qx.C19
+namespace Qx.C19
+
+/-! ### SOCKS5 receive path -/
+
+theorem checked_checkData (H : List UInt8 → List UInt8) (r : Recv) (h : Checked H r) : Checked H (r.checkData H) := by
+  unfold Recv.checkData Recv.terminate
+  split
+  · split
+    · exact h
+    · intro _ he; simp at he
+  · split
+    · exact h
+    · rename_i hck _
+      intro _ _
+      simpa [Recv.checkFails, Recv.acc] using hck
+
+theorem sstep_checked (H : List UInt8 → List UInt8) (r : Recv) (op : SOp) (h : Checked H r) : Checked H (sstep H r op) := by
+  cases op with
+  | chunk bytes =>
+    simp only [sstep]
+    split
+    · exact h
+    · rename_i hst
+      simp only [ne_eq, Decidable.not_not] at hst
+      split
+      · apply checked_checkData
+        intro hf; simp [hst] at hf
+      · intro hf; simp [hst] at hf
+  | disconnect =>
+    simp only [sstep]
+    split
+    · exact h
+    · exact checked_checkData H r h
+
+theorem srun_checked (H : List UInt8 → List UInt8) (ops : List SOp) (r : Recv) (h : Checked H r) : Checked H (srun H r ops) := by
+  induction ops generalizing r with
+  | nil => exact h
+  | cons op ops ih => exact ih _ (sstep_checked H r op h)
+
+@[simp] theorem sstep_size (H : List UInt8 → List UInt8) (r : Recv) (op : SOp) : (sstep H r op).size = r.size := by
+  cases op <;> simp only [sstep] <;> repeat (first | rfl | split | simp)
+
+@[simp] theorem sstep_hash (H : List UInt8 → List UInt8) (r : Recv) (op : SOp) : (sstep H r op).hash = r.hash := by
+  cases op <;> simp only [sstep] <;> repeat (first | rfl | split | simp)
+
+@[simp] theorem srun_size (H : List UInt8 → List UInt8) (ops : List SOp) (r : Recv) : (srun H r ops).size = r.size := by
+  induction ops generalizing r with
+  | nil => rfl
+  | cons op ops ih => simp [srun, ih]
+
+@[simp] theorem srun_hash (H : List UInt8 → List UInt8) (ops : List SOp) (r : Recv) : (srun H r ops).hash = r.hash := by
+  induction ops generalizing r with
+  | nil => rfl
+  | cons op ops ih => simp [srun, ih]
+
+/-- number of payload bytes in a list of socket events -/
+def sbytes : List SOp → Nat
+  | [] => 0
+  | .chunk b :: ops => b.length + sbytes ops
+  | .disconnect :: ops => sbytes ops
+
+theorem srun_short (H : List UInt8 → List UInt8) (ops : List SOp) (r : Recv)
+    (hn : ¬ r.success) (hlt : r.acc.length + sbytes ops < r.size) : ¬ (srun H r ops).success := by
+  induction ops generalizing r with
+  | nil => exact hn
+  | cons op ops ih =>
+    cases op with
+    | chunk b =>
+      simp only [srun, sstep]
+      simp only [sbytes] at hlt
+      split
+      · exact ih r hn (by omega)
+      · rename_i hst
+        simp only [ne_eq, Decidable.not_not] at hst
+        have hacc : ({ r with accRev := b.reverse ++ r.accRev } : Recv).acc.length = r.acc.length + b.length := by
+          simp [Recv.acc] <;> omega
+        split
+        · rename_i hge
+          have hge2 := hge.2
+          rw [hacc] at hge2
+          have : ({ r with accRev := b.reverse ++ r.accRev } : Recv).size = r.size := rfl
+          omega
+        · apply ih
+          · simp [Recv.success, hst]
+          · rw [hacc]; show r.acc.length + b.length + sbytes ops < r.size; omega
+    | disconnect =>
+      simp only [srun, sstep]
+      simp only [sbytes] at hlt
+      split
+      · exact ih r hn hlt
+      · apply ih
+        · apply Recv.checkData_fails_not_success H r _ hn
+          simp [Recv.checkFails]
+          left; omega
+        · simpa using hlt
+
+theorem sstep_chunk_transfer (H : List UInt8 → List UInt8) (r : Recv) (c : List UInt8) (hst : r.state = .transfer) :
+    sstep H r (.chunk c) =
+      if r.size ≠ 0 ∧ (r.acc ++ c).length ≥ r.size then
+        ({ r with accRev := c.reverse ++ r.accRev } : Recv).checkData H
+      else { r with accRev := c.reverse ++ r.accRev } := by
+  simp [sstep, hst, Recv.acc]
+
+theorem check_pass (H : List UInt8 → List UInt8) (data : List UInt8) (r' : Recv)
+    (e1 : r'.size = data.length) (e2 : ∀ h, r'.hash = some h → H data = h) (e3 : r'.acc = data) (e4 : r'.state = .transfer) :
+    (r'.checkData H).success ∧ (r'.checkData H).acc = data := by
+  have hcf : r'.checkFails H = false := by
+    rw [checkFails_false_iff]
+    exact ⟨fun _ => by rw [e3, e1], fun h hh => by rw [e3]; exact e2 h hh⟩
+  refine ⟨?_, by simpa using e3⟩
+  unfold Recv.checkData Recv.terminate
+  simp [hcf, e4, Recv.success]
+
+theorem srun_honest (H : List UInt8 → List UInt8) (data : List UInt8) (cs : List (List UInt8)) (r : Recv)
+    (hsize : r.size = data.length) (hhash : ∀ h, r.hash = some h → H data = h)
+    (h : (r.state = .transfer ∧ r.acc ++ cs.flatten = data) ∨ (r.success ∧ r.acc = data)) :
+    (srun H r (cs.map .chunk ++ [.disconnect])).success ∧ (srun H r (cs.map .chunk ++ [.disconnect])).acc = data := by
+  induction cs generalizing r with
+  | nil =>
+    simp only [List.map_nil, List.nil_append, srun, sstep]
+    rcases h with ⟨hst, hacc⟩ | ⟨hs, hacc⟩
+    · rw [if_neg (by rw [hst]; decide)]
+      exact check_pass H data r hsize hhash (by simpa using hacc) hst
+    · rw [if_pos hs.1]
+      exact ⟨hs, hacc⟩
+  | cons c cs ih =>
+    simp only [List.map_cons, List.cons_append, srun]
+    rcases h with ⟨hst, hacc⟩ | ⟨hs, hacc⟩
+    · rw [sstep_chunk_transfer H r c hst]
+      simp only [List.flatten_cons] at hacc
+      have hacc' : ({ r with accRev := c.reverse ++ r.accRev } : Recv).acc = r.acc ++ c := by simp [Recv.acc]
+      split
+      · rename_i hge
+        have hlen := congrArg List.length hacc
+        simp only [List.length_append] at hlen
+        have hge2 : r.size ≤ (r.acc ++ c).length := hge.2
+        simp only [List.length_append] at hge2
+        have hfl : cs.flatten = [] := by
+          apply List.eq_nil_of_length_eq_zero
+          omega
+        have hfull : r.acc ++ c = data := by simpa [hfl, List.append_assoc] using hacc
+        have hp := check_pass H data { r with accRev := c.reverse ++ r.accRev } hsize hhash (by rw [hacc', hfull]) hst
+        exact ih _ (by simpa using hsize) (by simpa using hhash) (Or.inr hp)
+      · exact ih _ hsize hhash (Or.inl ⟨hst, by rw [hacc', List.append_assoc]; exact hacc⟩)
+    · have : sstep H r (.chunk c) = r := by
+        simp [sstep, hs.1]
+      rw [this]
+      exact ih r hsize hhash (Or.inr ⟨hs, hacc⟩)
+
+end Qx.C19
